@@ -105,3 +105,27 @@ def install_all(E, quiet=True, hashes=True, secp=True):
     if quiet: install_quiet_stubs(E)
     if hashes: install_hash_stubs(E)
     if secp: install_secp_stubs(E)
+
+# ------------------------------------------------------------------ signature-check oracle of shims/sess.cpp (OracleChecker)
+def install_oracle(E):
+    """vf_oracle(kind, a, alen, b, blen, c, clen, sigversion) -> fresh 0/1 variable per distinct argument tuple, functionally
+    consistent (equal arguments => equal answers); the calls are recorded in st.aux['oracle'] for counterexample replay."""
+    def vf_oracle(E, st, fr, I, A):
+        kind, a, alen, b, blen, c, clen, sv = A
+        for x in (kind, alen, blen, clen, sv):
+            if is_sym(x): raise Unsupported('symbolic oracle shape')
+        args = (kind, tuple(rd(E, st, a, alen)) if alen else (), tuple(rd(E, st, b, blen)) if blen else (), tuple(rd(E, st, c, clen)) if clen else (), sv)
+        calls = list(st.aux.get('oracle', []))
+        def same(x, y): return (not is_sym(x) and not is_sym(y) and x == y) or (is_sym(x) and is_sym(y) and x.eq(y))
+        for (args2, var) in calls:
+            if args2[0] == kind and args2[4] == sv and all(len(p) == len(q) for p, q in zip(args2[1:4], args[1:4])) and \
+               all(same(x, y) for p, q in zip(args2[1:4], args[1:4]) for x, y in zip(p, q)):
+                return z3.ZeroExt(31, var)
+        var = z3.BitVec('orc%d_%d' % (len(calls), E.fresh()), 1)
+        for (args2, var2) in calls:
+            if args2[0] == kind and args2[4] == sv and all(len(p) == len(q) for p, q in zip(args2[1:4], args[1:4])):
+                eqs = [bv(x, 8) == bv(y, 8) for p, q in zip(args2[1:4], args[1:4]) for x, y in zip(p, q)]
+                st.pc.append(z3.Implies(z3.And(*eqs) if eqs else z3.BoolVal(True), var == var2)); st.model = None
+        calls.append((args, var)); st.aux['oracle'] = calls
+        return z3.ZeroExt(31, var)
+    E.stubs['vf_oracle'] = vf_oracle
